@@ -92,7 +92,7 @@ def part(run: Run, rng, cfg: str, tier: str, deadline: float, first_id: int) -> 
     good = [l for l in auths if model.parsed[l]['cred']['k'] == 'right']
     others = [l for l in model.labels if model.parsed[l]['kind'] == 'cmd']
     envs = sorted(cc.ENVS)
-    for i in range(400 if quick else 20000):
+    for i in range(400 if quick else 8000):
         seq = []
         for _ in range(rng.randint(3, 7)):
             x = rng.random()
@@ -112,7 +112,7 @@ def part(run: Run, rng, cfg: str, tier: str, deadline: float, first_id: int) -> 
         env = 'plain' if not st0['stls'] else ('tlslocal' if st0['mechs'] else 'tlsremote')
         cc.run_labels(ex, env, labels, 'simulate')
     info['simulated_behaviours'] = len(behs)
-    for i in range(150 if quick else 5000):
+    for i in range(150 if quick else 3000):
         cc.biased_walk(ex, rng.choice(envs), rng, rng.randint(6, 25))
     info['random_wall_s'] = round(time.time() - t2, 1)
     info['executions'] = ex.execs
